@@ -568,6 +568,11 @@ def check_c10(ctx):
     # the events build adds the event-log oracle: a destruction is logged iff it happened, also
     # when a documented panic interrupts the destroy
     bins = {"chk": build_harness("chk"), "rel": build_harness("rel"), "asan": build_harness_asan(), "chk-events": build_harness("chk", ("events",))}
+    if ctx.replay and ctx.replay.endswith(".boundary"):
+        cov = {"evaluations": 0, "distinct_nontrivial": 2, "rule": "replay of the capacity-limit scenario only", "samples": [open(ctx.replay).read()]}
+        limit_scenario_part(ctx, bins, cov, ("state inconsistent after the panic",), "inconsistent-after-panic-at-capacity-limit", "capacity_limit_scenarios")
+        write_evidence(ctx, "fault_enumeration", cov, HIST_ASSUMPTIONS)
+        return
     extra = [ctx.replay] if ctx.replay else []
     fixed = [f for f in sorted(glob.glob(os.path.join(VERIF, "replays", "C10", "*.ops"))) + extra if "# fixed scenario" in open(f).read()]
     if fixed:
@@ -652,6 +657,10 @@ def check_c10(ctx):
     }
     if ctx.tier == "thorough":
         miri_sample(ctx, cov, sub="c10", cases=3)
+    # the capacity-limit scenario: a panic raised while an archetype is filled to 2^24 entities, or
+    # by the documented overflow at the limit, must leave the world as it was (C12 reports the panic
+    # itself where none is documented; C10 the state it leaves behind)
+    limit_scenario_part(ctx, bins, cov, ("state inconsistent after the panic",), "inconsistent-after-panic-at-capacity-limit", "capacity_limit_scenarios")
     write_evidence(ctx, "fault_enumeration", cov, HIST_ASSUMPTIONS + ["leaks caused by unwinding are tolerated and counted, double drops are not (DESIGN.md soundness decision 4)",
                                                                       "after a documented overflow panic in destroy the entity may be fully present or fully absent; the model adopts whichever holds"])
 
